@@ -17,10 +17,16 @@ CLAIMED = {
    note="Payload identity is by injected wire id + byte comparison in the harness. " + TB),
  "C08": dict(engine="forwarder", design="4 C08", technique="TLA+ spec (Forwarder) model-checked by TLC; real-thread traces validated (expiry scheduling, reaper set, sizes, dead branches, dead-nonce expiry, quiescence)",
    text="Invariants and action properties on every step of real executions: every entry scheduled, reaper removes exactly the overdue entries, reported sizes are true sizes, name tree = prefixes of live entries, dead nonces expire, and after a quiescent tail nothing but cached Data remains.",
-   note="FIB/RIB structural reclamation is covered by the C05/C06 checks' tree-shape rules, not here. " + TB),
+   note="Includes a tables stage: after every RIB/FIB operation the RIB tree, FIB tree and hash-table real/virtual tables must hold exactly the nodes their live entries require (I_C08tbl). " + TB),
  "C09": dict(engine="forwarder", design="4 C09", technique="TLA+ spec (Forwarder) model-checked by TLC; real-thread traces validated (scope rule on observed emissions, unchanged tables on refusal)",
    text="Scope invariant evaluated on the observed emissions of the real thread (independent of model state) for every FIB/strategy/cache/token/NextHopFaceId history, plus 'refused packet changes no table'.",
    note=TB),
+ "C05": dict(engine="tables", design="4 C05", technique="TLA+ spec (Tables: abstract FIB map + implementation-shaped hash table with virtual depth m) model-checked by TLC (refinement); operation histories applied to both real FIBs, every lookup/listing validated by TLC",
+   text="TLC proves for all histories up to a depth bound that the hash-table design (real/virtual tables, md maintenance, probing order) is observationally the abstract longest-prefix-match map; TLC-generated and seeded histories are applied to the real name-tree and hash-table FIBs (m in 1..6) and after every operation the lookups of 13 names and both listings with their values must equal the abstract state. Open finding F16 (root strategy can be unset; pinned by a baseline test) is matched by signature.",
+   note="Universe of 8 prefixes (depths 0..6), 3 faces, 3 costs. " + TB),
+ "C06": dict(engine="tables", design="4 C06", technique="TLA+ spec (Tables: Flatten from the statement + RIB tree/updateNexthops as coded) model-checked by TLC (refinement); RIB histories on the real table.Rib over both FIBs validated by TLC",
+   text="Flatten is written from the property statement; TLC checks that the code's algorithm (subtree recomputation, capture stop, pruning) refines it for all histories up to a depth bound, and every lookup after every real register/unregister/cleanup must equal the flattening of the routes registered so far; the RIB's own listing must equal the registered routes.",
+   note="Route-less prefixes are judged through lookups only (DESIGN 4.0). " + TB),
 }
 NOT_YET = "check not yet built in this commit (work in progress; see DESIGN.md section 4)"
 NA = {}
@@ -41,7 +47,9 @@ def main():
          "hooks": {"guard": "verif", "enable": "Go build tag: `go1.26.8 test -tags verif` on the harness module /verif/harness (replace github.com/named-data/ndnd => /repo)",
                    "baseline_off_cmd": "cd /repo && go test -vet=off -count=1 ./...", "source_commits": [c.split()[0] for c in commits], "add_only": True},
          "engines": [{"name": "forwarder", "path": "spec/forwarder + harness/fwd_test.go + checks/forwarder.py", "serves_properties": ["C01", "C02", "C07", "C08", "C09"],
-                      "kind_free_text": "TLA+ module Forwarder (PIT/CS/DNL/FIB lookup/strategies), TLC exhaustive + simulate, trace validation of the real fw.Thread under synctest"}],
+                      "kind_free_text": "TLA+ module Forwarder (PIT/CS/DNL/FIB lookup/strategies), TLC exhaustive + simulate, trace validation of the real fw.Thread under synctest"},
+                     {"name": "tables", "path": "spec/tables + harness/tables_test.go + checks/tables.py", "serves_properties": ["C05", "C06", "C08"],
+                      "kind_free_text": "TLA+ module Tables (abstract FIB/RIB + implementation-shaped RIB tree and hash-table FIB), TLC refinement checking, trace validation of real table.Rib and both FIBs"}],
          "checks": checks,
          "notes": "Model-based verification with explicit TLA+ specifications (spec/), TLC model checking, and trace validation of the real code (harness/). ./vcheck <ID> --tier quick|thorough. See DESIGN.md.",
          "not_applicable": [{"property_id": p["id"], "reason": NA.get(p["id"], NOT_YET)} for p in props if p["id"] not in CLAIMED]}
